@@ -33,7 +33,7 @@ type cblock struct {
 	pre        map[string]cval // pre-commit content of the open block cache
 	bc         *statecache.BlockCache
 	depth      int
-	lateHash   bool // the block cache was created without a hash; SetBlockHash is called right before the commit
+	lateHash   bool            // the block cache was created without a hash; SetBlockHash is called right before the commit
 	late       map[string]cval // written into the block cache object AFTER the block was committed: private to that object for good
 }
 
@@ -46,17 +46,17 @@ type ctxn struct {
 }
 
 type cworld struct {
-	sc       *statecache.StateCache
-	blocks   map[string]*cblock
-	order    []*cblock
-	txns     []*ctxn
-	seq      int
-	mutable  bool // C07: mutable value types, scribbled after set and after get
-	r        *rand.Rand
-	perKey   map[string]map[string]bool // key -> block hashes the cache has been given an entry for (commits + memoising lookups)
-	commits  int
-	keyNames []string
-	evicted  map[string]bool // keys whose version map was dropped through StateCache.Remove: no must-hit afterwards
+	sc            *statecache.StateCache
+	blocks        map[string]*cblock
+	order         []*cblock
+	txns          []*ctxn
+	seq           int
+	mutable       bool // C07: mutable value types, scribbled after set and after get
+	r             *rand.Rand
+	perKey        map[string]map[string]bool // key -> block hashes the cache has been given an entry for (commits + memoising lookups)
+	commits       int
+	keyNames      []string
+	evicted       map[string]bool  // keys whose version map was dropped through StateCache.Remove: no must-hit afterwards
 	usedLeaves    []*util.LeafNode // leaf objects handed to the cache earlier (C07): re-used with a payload edited in place
 	reusedObjects int
 }
